@@ -10,7 +10,7 @@ import (
 	"verifharness/internal/vkit"
 )
 
-func main() { vkit.Main("C06", []string{"Gen.C06Util", "Model.Shapes"}, run) }
+func main() { vkit.Main("C06", []string{"Gen.C06Util", "Model.Shapes", "Model.Index"}, run) }
 
 func run(c *vkit.Collector, rng *vkit.Rng, budget int) {
 	runShapes(c, rng, budget)
